@@ -2,7 +2,8 @@
 C17 — identifiers in the outputs are unique, collision-free and functional.
 
 Property theorems only (helper lemmas: IsoVerif/Lemmas/Ids.lean).  The model (IsoVerif/Model/Ids.lean) is the
-code of src/id_policy.py after the two `fix:` commits, plus the id formatting of
+code of src/id_policy.py after the two `fix:` commits and the repair of audit finding C17-G1 (`FeatureIdStorage.__init__`
+reserves the `exon_id` values of the reference records of every feature type), plus the id formatting of
 src/graph_based_model_construction.py over the regenerated `TranscriptNaming` constants.
 
 Every statement quantifies over *all* reference id lists, all event / call histories, all chromosome names
@@ -238,40 +239,58 @@ theorem reference_id_on_other_chromosome_witness :
       "transcript1.chrA.nnic".toList ∈ transcriptIds "chrA".toList ms :=
   ⟨_, _, rfl, by decide⟩
 
-/-! ## 4. `exon_id` is a function of (chromosome, start, end, strand) -/
+/-! ## 4. `exon_id` is a function of (chromosome, start, end, strand)
 
-/-- the reference is *injective*: an `exon_id` value names one exon (otherwise "preserve the reference ids"
-    and "distinct exons carry distinct ids" contradict each other) -/
-def RefInjective (chr : Str) (feats : List RefFeature) : Prop :=
-  ∀ f ∈ feats, ∀ g ∈ feats, ∀ id, refId f = some id → refId g = some id → refKey chr f = refKey chr g
+The reference is the list of the chromosome's records of **every** feature type (`RefRecord`): GENCODE and every
+`extended_annotation.gtf` written by IsoQuant carry `exon_id` on CDS / start_codon / stop_codon / UTR lines too.
+`FeatureIdStorage.initRecords` is the repaired `__init__` (all values into `used_ids`, the `exon` records into
+`id_dict`); `FeatureIdStorage.initOrig` is the code before the repair (only `exon` records are read).
 
-/-- the reference is *functional* at `f`: all records of that exon carry the same `exon_id` -/
-def RefFunctionalAt (chr : Str) (feats : List RefFeature) (f : RefFeature) : Prop :=
-  ∀ g ∈ feats, refKey chr g = refKey chr f → (refId g).isSome → refId g = refId f
+Reading rule (docs/C17.md §3): `exon_id` names the *exon*; "reference exon ids are preserved" and "distinct exons
+carry distinct ids" are statements about the `exon` records.  An `exon_id` value on a record of another type is an id
+*present in the reference*: it must never be issued to a new interval (`no_reference_exon_id_collision`). -/
 
-theorem init_inv (dist : IdDistributor) (genedb : Option (List RefFeature)) (chr : Str)
-    (hinj : ∀ feats, genedb = some feats → RefInjective chr feats) :
-    StInv (FeatureIdStorage.init dist genedb chr) := by
-  unfold FeatureIdStorage.init
+/-- the reference is *injective* on its `exon` records: an `exon_id` value names one exon (otherwise "preserve the
+    reference ids" and "distinct exons carry distinct ids" contradict each other).  Records of other types are free
+    to repeat the id of the exon they lie in (GENCODE does). -/
+def RecInjective (chr : Str) (recs : List RefRecord) : Prop :=
+  ∀ f ∈ recs, ∀ g ∈ recs, f.ofType = true → g.ofType = true →
+    ∀ id, recId f = some id → recId g = some id → recKey chr f = recKey chr g
+
+/-- the reference is *functional* at the exon record `f`: all `exon` records of that exon carry the same `exon_id` -/
+def RecFunctionalAt (chr : Str) (recs : List RefRecord) (f : RefRecord) : Prop :=
+  ∀ g ∈ recs, g.ofType = true → recKey chr g = recKey chr f → (recId g).isSome → recId g = recId f
+
+/-- every `exon_id` value of the reference, whatever the type of the record that carries it -/
+def allRefIds (recs : List RefRecord) : List Str := recs.filterMap recId
+
+/-- the keys that own a reference id: the `exon` records that carry an `exon_id` -/
+def refExonKeys (chr : Str) (recs : List RefRecord) : List ExonKey :=
+  (recs.filter (fun r => r.ofType && (recId r).isSome)).map (recKey chr)
+
+theorem init_inv (dist : IdDistributor) (genedb : Option (List RefRecord)) (chr : Str)
+    (hinj : ∀ recs, genedb = some recs → RecInjective chr recs) :
+    StInv (FeatureIdStorage.initRecords dist genedb chr) := by
+  unfold FeatureIdStorage.initRecords
   cases genedb with
   | none => exact ⟨by simp [dictGet], by simp [dictGet]⟩
-  | some feats =>
+  | some recs =>
     by_cases hc : chr.isEmpty
     · simp only [hc, if_true]; exact ⟨by simp [dictGet], by simp [dictGet]⟩
     · simp only [hc]
-      obtain ⟨_, s2, s3, _, _⟩ := foldl_load_spec chr feats ⟨dist, [], []⟩
+      obtain ⟨_, s2, s3, _, _⟩ := foldl_loadRecord_spec chr recs ⟨dist, [], []⟩
       constructor
       · intro k id h
-        rcases s2 k id h with x | ⟨f, f1, f2, _⟩
+        rcases s2 k id h with x | ⟨f, f1, _, f2, _⟩
         · simp [dictGet] at x
         · exact Or.inl ((s3 id).mpr (Or.inr ⟨f, f1, f2⟩))
       · intro k1 k2 id h1 h2
-        rcases s2 k1 id h1 with x | ⟨f, f1, f2, f3⟩
+        rcases s2 k1 id h1 with x | ⟨f, f1, ft, f2, f3⟩
         · simp [dictGet] at x
-        rcases s2 k2 id h2 with x | ⟨g, g1, g2, g3⟩
+        rcases s2 k2 id h2 with x | ⟨g, g1, gt, g2, g3⟩
         · simp [dictGet] at x
         rw [f3, g3]
-        exact hinj feats rfl f f1 g g1 id f2 g2
+        exact hinj recs rfl f f1 g g1 ft gt id f2 g2
 
 /-- `get_id` always returns (the `while feature_id in used_ids` loop ends within `|used_ids| + 1` draws),
     over whole histories -/
@@ -298,52 +317,59 @@ theorem exon_id_functional_of_inv (st st' : FeatureIdStorage) (hinv : StInv st) 
     rw [e] at h1
     exact inv'.inj _ _ _ h1 h2
 
-/-- **exon_id_functional** for the storage the pipeline builds: any distributor, any reference feature list
-    (with or without `exon_id` attributes, injective where it has them), any call history -/
-theorem exon_id_functional (dist : IdDistributor) (genedb : Option (List RefFeature)) (chr : Str)
-    (hinj : ∀ feats, genedb = some feats → RefInjective chr feats) (ks : List ExonKey) :
-    ∃ ids st', (FeatureIdStorage.init dist genedb chr).getIds ks = some (ids, st') ∧
+/-- **exon_id_functional** for the storage the pipeline builds: any distributor, any reference record list (records
+    of every type, with or without `exon_id` attributes, injective on its `exon` records), any call history – the
+    calls made for CDS / codon / UTR intervals (`other_features` of the printer) included -/
+theorem exon_id_functional (dist : IdDistributor) (genedb : Option (List RefRecord)) (chr : Str)
+    (hinj : ∀ recs, genedb = some recs → RecInjective chr recs) (ks : List ExonKey) :
+    ∃ ids st', (FeatureIdStorage.initRecords dist genedb chr).getIds ks = some (ids, st') ∧
       ids.length = ks.length ∧
       ∀ p ∈ ks.zip ids, ∀ q ∈ ks.zip ids, (p.1 = q.1 ↔ p.2 = q.2) := by
-  obtain ⟨ids, st', h⟩ := getIds_total ks (FeatureIdStorage.init dist genedb chr)
+  obtain ⟨ids, st', h⟩ := getIds_total ks (FeatureIdStorage.initRecords dist genedb chr)
   obtain ⟨a, _, c⟩ := exon_id_functional_of_inv _ st' (init_inv dist genedb chr hinj) ks ids h
   exact ⟨ids, st', h, a, c⟩
 
--- non-vacuity: reference with ids (one of them IsoQuant-style `c.1`), history with repeats and new exons
+-- non-vacuity: an annotation written by an earlier IsoQuant run on a GENCODE-like reference: exon 10–20 `c.1`, its CDS
+-- 12–18 with an id of its own (`c.2`), a GENCODE-style CDS record repeating the id `E7` of its exon; the history asks
+-- for reference exons, the CDS intervals and new exons
 example :
-    ((FeatureIdStorage.init SimpleIDDistributor.init
-        (some [⟨10, 20, ['+'], some ["c.1".toList]⟩, ⟨30, 40, ['+'], none⟩, ⟨50, 60, ['-'], some ["E7".toList]⟩]) ['c']).getIds
+    ((FeatureIdStorage.initRecords SimpleIDDistributor.init
+        (some [⟨true, 10, 20, ['+'], some ["c.1".toList]⟩, ⟨false, 12, 18, ['+'], some ["c.2".toList]⟩,
+               ⟨true, 30, 40, ['+'], none⟩, ⟨true, 50, 60, ['-'], some ["E7".toList]⟩,
+               ⟨false, 50, 55, ['-'], some ["E7".toList]⟩]) ['c']).getIds
       [(['c'], 30, 40, ['+']), (['c'], 10, 20, ['+']), (['c'], 70, 80, ['+']), (['c'], 30, 40, ['+']),
-       (['c'], 50, 60, ['-']), (['c'], 30, 40, ['-'])]).map (fun r => r.1.map String.ofList)
-    = some ["c.2", "c.1", "c.3", "c.2", "E7", "c.4"] := by decide
+       (['c'], 50, 60, ['-']), (['c'], 12, 18, ['+']), (['c'], 50, 55, ['-']), (['c'], 30, 40, ['-'])]).map
+        (fun r => r.1.map String.ofList)
+    = some ["c.3", "c.1", "c.4", "c.3", "E7", "c.5", "c.6", "c.7"] := by decide
 
-example : RefInjective ['c'] [⟨10, 20, ['+'], some ["c.1".toList]⟩, ⟨30, 40, ['+'], none⟩,
-    ⟨50, 60, ['-'], some ["E7".toList]⟩] := by
-  intro f hf g hg id h1 h2
+example : RecInjective ['c'] [⟨true, 10, 20, ['+'], some ["c.1".toList]⟩, ⟨false, 12, 18, ['+'], some ["c.2".toList]⟩,
+    ⟨true, 50, 60, ['-'], some ["E7".toList]⟩, ⟨false, 50, 55, ['-'], some ["E7".toList]⟩] := by
+  intro f hf g hg ft gt id h1 h2
   simp only [List.mem_cons, List.not_mem_nil, or_false] at hf hg
-  rcases hf with rfl | rfl | rfl <;> rcases hg with rfl | rfl | rfl <;>
-    simp_all [refId, refKey] <;> (subst h1; simp at h2)
+  rcases hf with rfl | rfl | rfl | rfl <;> rcases hg with rfl | rfl | rfl | rfl <;>
+    simp_all [recId, refId, recKey, refKey] <;> (subst h1; simp at h2)
 
-/-- **reference exon ids are preserved**: an exon whose reference records all carry the id `id` gets `id`
-    at every call of every history -/
-theorem exon_id_reference_preserved (dist : IdDistributor) (feats : List RefFeature) (chr : Str)
-    (hchr : chr.isEmpty = false) (f : RefFeature) (hf : f ∈ feats) (id : Str) (hid : refId f = some id)
-    (hfun : RefFunctionalAt chr feats f) (ks : List ExonKey) (ids : List Str) (st' : FeatureIdStorage)
-    (h : (FeatureIdStorage.init dist (some feats) chr).getIds ks = some (ids, st')) :
-    ∀ p ∈ ks.zip ids, p.1 = refKey chr f → p.2 = id := by
+/-- **reference exon ids are preserved**: an exon whose reference `exon` records all carry the id `id` gets `id`
+    at every call of every history (whatever ids the records of other types carry) -/
+theorem exon_id_reference_preserved (dist : IdDistributor) (recs : List RefRecord) (chr : Str)
+    (hchr : chr.isEmpty = false) (f : RefRecord) (hf : f ∈ recs) (hft : f.ofType = true) (id : Str)
+    (hid : recId f = some id) (hfun : RecFunctionalAt chr recs f) (ks : List ExonKey) (ids : List Str)
+    (st' : FeatureIdStorage)
+    (h : (FeatureIdStorage.initRecords dist (some recs) chr).getIds ks = some (ids, st')) :
+    ∀ p ∈ ks.zip ids, p.1 = recKey chr f → p.2 = id := by
   obtain ⟨_, a1, a2, _, _⟩ := getIds_spec ks _ st' ids h
   -- the initial table binds the key to `id`
-  have h0 : dictGet (refKey chr f) (FeatureIdStorage.init dist (some feats) chr).dict = some id := by
-    unfold FeatureIdStorage.init
+  have h0 : dictGet (recKey chr f) (FeatureIdStorage.initRecords dist (some recs) chr).dict = some id := by
+    unfold FeatureIdStorage.initRecords
     simp only [hchr, Bool.false_eq_true, if_false]
-    obtain ⟨_, s2, _, _, s5⟩ := foldl_load_spec chr feats ⟨dist, [], []⟩
-    have hs := s5 f hf (by simp [hid])
-    cases hg : dictGet (refKey chr f) (List.foldl (FeatureIdStorage.load chr) ⟨dist, [], []⟩ feats).dict with
+    obtain ⟨_, s2, _, _, s5⟩ := foldl_loadRecord_spec chr recs ⟨dist, [], []⟩
+    have hs := s5 f hf hft (by simp [hid])
+    cases hg : dictGet (recKey chr f) (List.foldl (FeatureIdStorage.loadRecord chr) ⟨dist, [], []⟩ recs).dict with
     | none => simp [hg] at hs
     | some id' =>
-      rcases s2 _ _ hg with x | ⟨g, g1, g2, g3⟩
+      rcases s2 _ _ hg with x | ⟨g, g1, gt, g2, g3⟩
       · simp [dictGet] at x
-      · have := hfun g g1 g3.symm (by simp [g2])
+      · have := hfun g g1 gt g3.symm (by simp [g2])
         rw [g2, hid] at this
         exact this
   intro p hp e
@@ -351,12 +377,132 @@ theorem exon_id_reference_preserved (dist : IdDistributor) (feats : List RefFeat
   rw [e, a2 _ _ h0] at h1
   exact (Option.some.inj h1).symm
 
--- non-vacuity: two records of the same exon with the same id
-example : RefFunctionalAt ['c'] [⟨10, 20, ['+'], some ["E1".toList]⟩, ⟨10, 20, ['+'], some ["E1".toList, "x".toList]⟩,
-    ⟨30, 40, ['+'], none⟩] ⟨10, 20, ['+'], some ["E1".toList]⟩ := by
-  intro g hg hk hs
+-- non-vacuity: two `exon` records of the same exon with the same id, a CDS record of the same interval with another one
+example : RecFunctionalAt ['c'] [⟨true, 10, 20, ['+'], some ["E1".toList]⟩,
+    ⟨true, 10, 20, ['+'], some ["E1".toList, "x".toList]⟩, ⟨false, 10, 20, ['+'], some ["c.9".toList]⟩,
+    ⟨true, 30, 40, ['+'], none⟩] ⟨true, 10, 20, ['+'], some ["E1".toList]⟩ := by
+  intro g hg gt hk hs
   simp only [List.mem_cons, List.not_mem_nil, or_false] at hg
-  rcases hg with rfl | rfl | rfl <;> simp_all [refId, refKey]
+  rcases hg with rfl | rfl | rfl | rfl <;> simp_all [recId, refId, recKey, refKey]
+
+/-- **no collision with any `exon_id` of the reference** (the clause of C17 "novel IDs never collide with IDs present
+    in the reference annotation, including one previously generated by IsoQuant" for exon ids): over any history on the
+    storage of the repaired code, if a returned id is the `exon_id` value of ANY reference record `r` of the
+    chromosome – an `exon`, CDS, start/stop codon, UTR or any other record – then the call was made for the interval
+    of a reference `exon` record that carries exactly this id.  No hypothesis on the reference. -/
+theorem no_reference_exon_id_collision (dist : IdDistributor) (recs : List RefRecord) (chr : Str)
+    (hchr : chr.isEmpty = false) (ks : List ExonKey) (ids : List Str) (st' : FeatureIdStorage)
+    (h : (FeatureIdStorage.initRecords dist (some recs) chr).getIds ks = some (ids, st')) :
+    ∀ p ∈ ks.zip ids, ∀ r ∈ recs, recId r = some p.2 →
+      ∃ f ∈ recs, f.ofType = true ∧ recId f = some p.2 ∧ p.1 = recKey chr f := by
+  intro p hp r hr hrid
+  obtain ⟨_, a1, _, _, _⟩ := getIds_spec ks _ st' ids h
+  have hb := a1 p hp
+  have h0 : FeatureIdStorage.initRecords dist (some recs) chr =
+      recs.foldl (FeatureIdStorage.loadRecord chr) ⟨dist, [], []⟩ := by
+    unfold FeatureIdStorage.initRecords
+    simp only [hchr, Bool.false_eq_true, if_false]
+  obtain ⟨_, s2, s3, _, _⟩ := foldl_loadRecord_spec chr recs ⟨dist, [], []⟩
+  rcases getIds_origin ks _ st' ids h p.1 p.2 hb with x | ⟨y, _⟩
+  · rw [h0] at x
+    rcases s2 _ _ x with z | ⟨f, f1, ft, f2, f3⟩
+    · simp [dictGet] at z
+    · exact ⟨f, f1, ft, f2, f3⟩
+  · rw [h0] at y
+    exact absurd ((s3 p.2).mpr (Or.inr ⟨r, hr, hrid⟩)) y
+
+/-- the same as a statement about new intervals: a call made for an interval that owns no reference id (no `exon`
+    record with an `exon_id` at this key) returns an id that occurs nowhere in the reference -/
+theorem fresh_exon_id_avoids_reference (dist : IdDistributor) (recs : List RefRecord) (chr : Str)
+    (hchr : chr.isEmpty = false) (ks : List ExonKey) (ids : List Str) (st' : FeatureIdStorage)
+    (h : (FeatureIdStorage.initRecords dist (some recs) chr).getIds ks = some (ids, st')) :
+    ∀ p ∈ ks.zip ids, p.1 ∉ refExonKeys chr recs → p.2 ∉ allRefIds recs := by
+  intro p hp hk hmem
+  simp only [allRefIds, List.mem_filterMap] at hmem
+  obtain ⟨r, hr, hrid⟩ := hmem
+  obtain ⟨f, f1, ft, f2, f3⟩ := no_reference_exon_id_collision dist recs chr hchr ks ids st' h p hp r hr hrid
+  apply hk
+  simp only [refExonKeys, List.mem_map, List.mem_filter]
+  exact ⟨f, ⟨f1, by simp [ft, f2]⟩, f3.symm⟩
+
+-- non-vacuity (the minimal failing input of the unrepaired code): reference exon 100–200 `c.1`, CDS 120–180 `c.2`;
+-- the new exon 300–400 gets `c.3`, the CDS interval is renumbered `c.4`
+example :
+    ((FeatureIdStorage.initRecords SimpleIDDistributor.init
+        (some [⟨true, 100, 200, ['+'], some ["c.1".toList]⟩, ⟨false, 120, 180, ['+'], some ["c.2".toList]⟩]) ['c']).getIds
+      [(['c'], 300, 400, ['+']), (['c'], 100, 200, ['+']), (['c'], 120, 180, ['+'])]).map
+        (fun r => r.1.map String.ofList) = some ["c.3", "c.1", "c.4"] ∧
+    (['c'], (300 : Int), (400 : Int), ['+']) ∉ refExonKeys ['c']
+        [⟨true, 100, 200, ['+'], some ["c.1".toList]⟩, ⟨false, 120, 180, ['+'], some ["c.2".toList]⟩] ∧
+    "c.2".toList ∈ allRefIds [⟨true, 100, 200, ['+'], some ["c.1".toList]⟩, ⟨false, 120, 180, ['+'], some ["c.2".toList]⟩] := by
+  refine ⟨by decide, by decide, by decide⟩
+
+/-! ### the code before the repair (`initOrig`: `region(..., featuretype="exon")`) -/
+
+/-- **witness** (replayed on the real class through a real gffutils database by the oracle): the reference – an
+    `extended_annotation.gtf` of an earlier run – carries `exon_id "c.1"` on the exon 100–200 and `exon_id "c.2"` on the
+    CDS 120–180.  The unrepaired code gives the NEW exon 300–400 the id `c.2`: `fresh_exon_id_avoids_reference` is
+    false of `initOrig`. -/
+theorem exon_id_collision_orig_witness :
+    let recs : List RefRecord := [⟨true, 100, 200, ['+'], some ["c.1".toList]⟩, ⟨false, 120, 180, ['+'], some ["c.2".toList]⟩]
+    ((FeatureIdStorage.initOrig SimpleIDDistributor.init (some recs) ['c']).getIds [(['c'], 300, 400, ['+'])]).map
+        (fun r => r.1.map String.ofList) = some ["c.2"] ∧
+    (['c'], (300 : Int), (400 : Int), ['+']) ∉ refExonKeys ['c'] recs ∧ "c.2".toList ∈ allRefIds recs := by
+  refine ⟨by decide, by decide, by decide⟩
+
+/-- on a reference whose `exon_id` attributes sit on `exon` records only, the code before the repair built the same
+    storage as the repaired code -/
+theorem init_orig_eq_of_ids_on_exon_records (dist : IdDistributor) (genedb : Option (List RefRecord)) (chr : Str)
+    (hex : ∀ recs, genedb = some recs → ∀ r ∈ recs, (recId r).isSome → r.ofType = true) :
+    FeatureIdStorage.initOrig dist genedb chr = FeatureIdStorage.initRecords dist genedb chr := by
+  cases genedb with
+  | none => rfl
+  | some recs =>
+    simp only [FeatureIdStorage.initOrig, Option.map_some, FeatureIdStorage.init, FeatureIdStorage.initRecords]
+    split
+    · rfl
+    · have aux : ∀ (l : List RefRecord) (st : FeatureIdStorage), (∀ r ∈ l, (recId r).isSome → r.ofType = true) →
+          ((l.filter (·.ofType)).map (·.feat)).foldl (FeatureIdStorage.load chr) st =
+            l.foldl (FeatureIdStorage.loadRecord chr) st := by
+        intro l
+        induction l with
+        | nil => intro st _; rfl
+        | cons r t ih =>
+          intro st hl
+          have ht := ih (st := FeatureIdStorage.loadRecord chr st r) (fun x hx => hl x (by simp [hx]))
+          cases hty : r.ofType with
+          | true =>
+            have e : r = ⟨true, r.feat⟩ := by cases r; simp_all
+            simp only [List.filter_cons, hty, if_true, List.map_cons, List.foldl_cons]
+            rw [← loadRecord_ofType, ← e]
+            exact ht
+          | false =>
+            have hn : recId r = none := by
+              cases hr : recId r with
+              | none => rfl
+              | some id =>
+                have := hl r (by simp) (by simp [hr])
+                rw [hty] at this; cases this
+            have e : FeatureIdStorage.loadRecord chr st r = st := by rw [loadRecord_eq, hn]
+            simp only [List.filter_cons, hty, Bool.false_eq_true, if_false, List.foldl_cons]
+            rw [e] at ht ⊢
+            exact ht
+      exact aux recs ⟨dist, [], []⟩ (hex recs rfl)
+
+/-- **partial** statement for the code before the repair: it avoids every reference id on the class of references
+    that `exon_id_collision_orig_witness` is not in – `exon_id` attributes on `exon` records only.  (Missing for the
+    full statement: the `exon_id` values of the other record types; GENCODE and IsoQuant's own output have them.) -/
+theorem no_reference_exon_id_collision_orig_partial (dist : IdDistributor) (recs : List RefRecord) (chr : Str)
+    (hchr : chr.isEmpty = false) (hex : ∀ r ∈ recs, (recId r).isSome → r.ofType = true)
+    (ks : List ExonKey) (ids : List Str) (st' : FeatureIdStorage)
+    (h : (FeatureIdStorage.initOrig dist (some recs) chr).getIds ks = some (ids, st')) :
+    ∀ p ∈ ks.zip ids, p.1 ∉ refExonKeys chr recs → p.2 ∉ allRefIds recs := by
+  rw [init_orig_eq_of_ids_on_exon_records dist (some recs) chr
+    (fun l hl => by cases hl; exact hex)] at h
+  exact fresh_exon_id_avoids_reference dist recs chr hchr ks ids st' h
+
+example : ∀ r ∈ ([⟨true, 10, 20, ['+'], some ["c.1".toList]⟩, ⟨false, 12, 18, ['+'], none⟩] : List RefRecord),
+    (recId r).isSome → r.ofType = true := by decide
 
 /-! ### across chromosomes
 
